@@ -7,6 +7,8 @@ From Dimod Require Model.Expr Model.FixCopy Proofs.FixCopyFacts Proofs.FixCopyBa
 From Dimod Require Model.HPolyPy Proofs.HPolyPyFacts.
 From Dimod Require Model.FixCopyGen Proofs.FixCopyGenFacts.
 From Dimod Require Model.VartypeOps Model.FlipMarks Proofs.FlipMarksFacts.
+From Dimod Require Gen.Gen_HPolyPy Proofs.HPolyPyGenFacts.
+From Dimod Require Gen.Gen_LoopShapes.
 Import ListNotations.
 Open Scope Qc_scope.
 
@@ -382,6 +384,15 @@ Proof. exact FlipMarksFacts.discrete_paths_disagree_refuted. Qed.
 Print Assumptions C03_discrete_paths_disagree_refuted.
 
 
+(* higherordercomposites.fix_variables: initial offset generated by translators/poly_loops.py (which pins the loop shape) *)
+Theorem C03_poly_fix_loop_uses_source_constants :
+  forall (fixed : list (nat * Qc)) (p : hpoly),
+  HPolyPy.fix_loop_py fixed p =
+  fold_left (HPolyPy.fix_step_py fixed) p ([], Gen_HPolyPy.gen_fix_offset_init).
+Proof. exact HPolyPyGenFacts.fix_loop_py_uses_source_constants. Qed.
+Print Assumptions C03_poly_fix_loop_uses_source_constants.
+
+
 (* non-vacuity: 3 i^2 + 2 i + 5 i j + j with i := 2 is 49 at j = 3 *)
 Example C03_example :
   energy (fix_variable 0%nat (qc 2 1)
@@ -392,3 +403,8 @@ Proof. vm_compute. reflexivity. Qed.
 Example C03_example_poly :
   henergy (hfix [(0%nat, qc 2 1)] [([], qc 5 1); ([0%nat; 1%nat], qc 3 1)]) (fun _ => qc 1 1) = qc 11 1.
 Proof. vm_compute. reflexivity. Qed.
+
+(* the loops the code-shaped models mirror are textually the ones the models were proved against
+   (translators/loop_shapes.py fails, and with it this build, as soon as one of them is edited) *)
+Example C03_mirrored_loops_pinned : length Gen_LoopShapes.gen_pinned_loops = 15%nat.
+Proof. reflexivity. Qed.
